@@ -363,6 +363,29 @@ def check_process_parent(ctx, cls, lc, seen):
             ctx.check('R3', f'{gr.short}: the (False, None) fallback at line {n.line} is taken only after the result pipe has been read', ok, gr.short, 'fallback-without-reading-the-pipe',
                       f'{gr.short} falls back to (False, None) on a path that never looked into the result pipe: an outcome the child delivered before it died (e.g. it returned normally and '
                       'its interpreter exited non-zero, or a terminate landed in its clean-up) is discarded - has_error True, error None for work that finished', where=loc(gr, n.stmt))
+    # who may close the parent's end of the outcome channel: nobody but the function that reads the outcome, after the read (the child-main closes
+    # its own inherited copy).  A close anywhere else - before the final message has been read - turns a delivered outcome into the fallback.
+    chan_end = f'self.{lc.outcome_channel}.parent_end'
+    n_close = 0
+    for c in lc.cls.mro():
+        if isinstance(c, str):
+            continue
+        for f in c.methods.values():
+            if f is lc.main:
+                continue
+            for call in calls_in(f.node):
+                if last_attr(call) == 'close' and receiver(call) == chan_end:
+                    n_close += 1
+                    ok = False
+                    if f is gr:
+                        cn = [n for n in g.nodes if n.stmt is not None and n.part == 'eval' and any(x is call for x in n.calls())]
+                        ok = bool(cn) and all(dom.get(n.id, set()) & reads for n in cn)
+                    ctx.check('R3', f'{f.short}: the parent\'s end of the result pipe is closed only after the outcome has been read from it', ok, f.short,
+                              f'outcome-channel-closed:{f.name}',
+                              f'{f.short} closes {chan_end} although the final message of the child may still be unread (the child can deliver it after the first phase of the bounded '
+                              'join): _get_result then finds a closed pipe and falls back to (False, None) - a worker that returned a value, or re-raised the terminate request, is reported as killed',
+                              where=loc(f, call))
+    ctx.stats.setdefault('closes_of_the_outcome_channel_on_the_parent_side', {})[cls.name] = n_close
     # def-use: whatever a parent-side function reads from the outcome channel ahead of time must flow into the slot in _get_result
     for c in lc.cls.mro():
         if isinstance(c, str):
